@@ -311,7 +311,7 @@ func init() {
 	Register(&thr)
 }
 
-func genDetFiles(rt *rapid.T, withBig bool, nondyadic int) map[string]string {
+func genDetFiles(rt *rapid.T, withBig bool, nondyadic int, bigmode int) map[string]string {
 	r := rapidRnd{rt}
 	files := map[string]string{}
 	ntax := rapid.IntRange(6, 9).Draw(rt, "ntax")
@@ -431,7 +431,14 @@ func genDetFiles(rt *rapid.T, withBig bool, nondyadic int) map[string]string {
 	files["big.nw"] = "(a,b,c);\n"
 	if withBig {
 		files["big.nw"] = bigTreeText(int64(rapid.IntRange(1, 1<<30).Draw(rt, "bigseed")), rapid.SampledFrom([]int{1001, 1025}).Draw(rt, "bigsize"), false) + "\n"
-		switch rapid.IntRange(0, 2).Draw(rt, "bigmode") {
+		bm := rapid.IntRange(0, 3).Draw(rt, "bigmode")
+		if bigmode >= 0 {
+			bm = bigmode
+		}
+		switch bm {
+		case 3:
+			// long taxon names (accession + species + place + date): the text of one tree exceeds 64 KiB
+			files["big.nw"] = regexp.MustCompile(`b([0-9]+)`).ReplaceAllString(files["big.nw"], "EPI_ISL_${1}_Severe_acute_respiratory_syndrome_coronavirus_2_hCoV-19_2021-03-14")
 		case 1:
 			// every branch of the same length: many pairs of tips are exactly as far apart as the two most distant ones (ties in every "longest" / "closest" search)
 			files["big.nw"] = regexp.MustCompile(`:[0-9.]+`).ReplaceAllString(files["big.nw"], ":1")
@@ -472,7 +479,7 @@ func genSeam(rt *rapid.T, label string) Seam {
 	return Seam{MapSeed: uint64(rapid.IntRange(1, 1<<20).Draw(rt, label+"map")), Epoch: int64(rapid.SampledFrom([]int{1000, 5, 1700000000, 99999999999}).Draw(rt, label+"epoch")), Sched: genSched(rt)}
 }
 
-func genC18(rt *rapid.T, tier string) any { return genC18T(rt, tier, "", -1) }
+func genC18(rt *rapid.T, tier string) any { return genC18T(rt, tier, "", -1, -1) }
 
 // enumC18 gives every template a floor of executions per batch set, whatever the seeded search happens to draw: template i is
 // executed with k = 0..K-1 generated inputs (generator seeded by (i, k)), each with the full schedule sweep.
@@ -488,7 +495,7 @@ func enumC18(tier string, batch, nbatch int) []any {
 				continue
 			}
 			name := detTemplates[i].name
-			gen := rapid.Custom(func(rt *rapid.T) any { return genC18T(rt, tier, name, k%2) })
+			gen := rapid.Custom(func(rt *rapid.T) any { return genC18T(rt, tier, name, k%2, k%4) })
 			c := gen.Example(1000*i + k + 1).(*DetCase)
 			c.Sweep = 10
 			out = append(out, c)
@@ -497,7 +504,7 @@ func enumC18(tier string, batch, nbatch int) []any {
 	return out
 }
 
-func genC18T(rt *rapid.T, tier string, forced string, nondyadic int) any {
+func genC18T(rt *rapid.T, tier string, forced string, nondyadic int, bigmode int) any {
 	c := &DetCase{}
 	c.Template = detTemplates[rapid.IntRange(0, len(detTemplates)-1).Draw(rt, "template")].name
 	if rapid.IntRange(0, 9).Draw(rt, "priority") < 4 {
@@ -510,7 +517,6 @@ func genC18T(rt *rapid.T, tier string, forced string, nondyadic int) any {
 	if forced != "" {
 		c.Template = forced
 	}
-	c.Files = genDetFiles(rt, strings.HasSuffix(c.Template, "-big"), nondyadic)
 	c.Seed = rapid.IntRange(0, 1000).Draw(rt, "seed")
 	c.Threads = rapid.SampledFrom([]int{1, 2, 3, 4}).Draw(rt, "threads")
 	c.SeamA, c.SeamB = genSeam(rt, "a"), genSeam(rt, "b")
@@ -539,6 +545,8 @@ func genC18T(rt *rapid.T, tier string, forced string, nondyadic int) any {
 			}
 		}
 	}
+	// the big input exists when the template or the interfering template reads it
+	c.Files = genDetFiles(rt, strings.HasSuffix(c.Template, "-big") || strings.HasSuffix(c.Interfere, "-big"), nondyadic, bigmode)
 	return c
 }
 
